@@ -229,8 +229,8 @@ class ModuleSweep:
             except z3.Z3Exception as e:
                 self.undecided.append(dict(opts=repr(opts), n=n, why='post-check z3: ' + str(e)[:60]))
         ex = explore(f, lambda ctx: [raw_input()], n, budget=4000 if self.tier == 'quick' else 20000,
-                     time_limit=min(90 if self.tier == 'quick' else 600, max(5, self.time_limit - (time.time() - self.t0))),
-                     kwargs=opts, long_bound=self.nmax, on_path=on_path)
+                     time_limit=min(45 if self.tier == 'quick' else 600, max(5, self.time_limit - (time.time() - self.t0))),
+                     kwargs=opts, long_bound=self.nmax, on_path=on_path, on_restart=lambda: counts.update(paths=0, acc=0))
         self.stats['paths'] += counts['paths']
         self.stats['checks'] += ex.checks
         self.stats['fast'] += ex.fast
